@@ -16,7 +16,7 @@ from pathlib import Path
 from . import tlc
 
 
-def validate(ctx, module, cfg, traces, *, label, nstates, jvms=8, workers=2, timeout=900, chunk=None):
+def validate(ctx, module, cfg, traces, *, label, nstates=None, jvms=8, workers=2, timeout=900, chunk=None):
     """Returns list of verdict dicts {index, prop, impl, pos} for the non-clean traces (index into
     `traces`). Raises tlc.TLCError if TLC could not consume every trace."""
     if not traces:
@@ -40,8 +40,8 @@ def validate(ctx, module, cfg, traces, *, label, nstates, jvms=8, workers=2, tim
     with ThreadPoolExecutor(max_workers=jvms) as ex:
         for off, cnt, r in ex.map(one, files):
             ctx.tlc(r, f"{label}[{off}:{off + cnt}]")
-            expect = sum(nstates(t) for t in traces[off:off + cnt])
-            if r.ok and r.distinct != expect:
+            expect = sum(nstates(t) for t in traces[off:off + cnt]) if nstates else None
+            if r.ok and nstates and r.distinct != expect:
                 raise tlc.TLCError(f"trace spec {module}: batch at {off} reached {r.distinct} states, {expect} expected "
                                    f"(a trace was not consumed to its end)")
             if not r.ok:
@@ -54,9 +54,10 @@ def validate(ctx, module, cfg, traces, *, label, nstates, jvms=8, workers=2, tim
                                      "impl": m.group(3), "pos": int(m.group(4))})
     ctx.traces(n)
     # PrintT also fires while TLC evaluates ENABLED: keep one verdict per trace
-    seen, uniq = set(), []
+    # (trace specs that explore several schedules of one trace print several: a property verdict wins)
+    best = {}
     for v in verdicts:
-        if v["index"] not in seen:
-            seen.add(v["index"])
-            uniq.append(v)
-    return uniq
+        o = best.get(v["index"])
+        if o is None or (v["prop"] and not o["prop"]):
+            best[v["index"]] = v
+    return [best[k] for k in sorted(best)]
